@@ -109,6 +109,17 @@ def strategy_(draw, tier):
                     ['GENOMIC_POSITION', f'chr1:{ds + 100}-{de + 100}']]
             recs.append(dict(kind=kind, gene=gene, tx=tx, start=start, end=end, ref=ref,
                 alt=alt, id=vid, attrs=attrs))
+            if kind in ('Insertion', 'Substitution', 'Fusion') and d.chance(0.35):
+                # a second event anchored at the same position that differs in one coordinate
+                # attribute only (rMATS: retained intron and A5SS extension starting at the
+                # same base; two alternative exons of one MXE; one donor breakpoint joined to
+                # two acceptor positions)
+                which = 'ACCEPTER_POSITION' if kind == 'Fusion' else \
+                    d.choice(['DONOR_END', 'DONOR_END', 'DONOR_START'])
+                attrs2 = [[k, (v + d.randint(1, 40) if k == which else v)] for k, v in attrs]
+                recs.append(dict(kind=kind, gene=gene, tx=tx, start=start, end=end, ref=ref,
+                    alt=alt, id=vid + '-' + str(dict(map(tuple, attrs2))[which]), attrs=attrs2,
+                    twin=True))
         if d.chance(0.5):
             # group by transcript (what the parsers write); otherwise leave interleaved
             order = []
@@ -146,6 +157,18 @@ def expected_line(r):
         info.append(f'{k}={v}')
     return '\t'.join([r['gene'], str(r['start'] + 1), r['id'], r['ref'][0] if
         r['alt'].startswith('<') else r['ref'], r['alt'], '.', '.', ';'.join(info)])
+
+
+COORD_ATTRS = {'START', 'END', 'DONOR_START', 'DONOR_END', 'DONOR_TRANSCRIPT_ID',
+    'LEFT_INSERT_START', 'LEFT_INSERT_END', 'RIGHT_INSERT_START', 'RIGHT_INSERT_END',
+    'ACCEPTER_TRANSCRIPT_ID', 'ACCEPTER_POSITION'}
+
+
+def coord_key(line):
+    """ the coordinates of a GVF line: everything but the id and descriptive attributes """
+    c = line.rstrip('\n').split('\t')
+    attrs = tuple(sorted(x for x in c[7].split(';') if x.split('=')[0] in COORD_ATTRS))
+    return (c[0], c[1], c[3], c[4], attrs)
 
 
 # ---------------------------------------------------------------- drivers
@@ -213,6 +236,7 @@ def prop(case, ctx):
     # pylint: disable=too-many-locals,too-many-branches,too-many-statements
     from moPepGen.seqvar.VariantRecordPoolOnDisk import VariantRecordPoolOnDisk, \
         VariantRecordPoolOnDiskOpener
+    from moPepGen.seqvar.VariantRecord import VariantRecord
     out = Outcome()
     d = ctx.fresh_dir()
     kinds = set()
@@ -293,10 +317,30 @@ def prop(case, ctx):
                 res[key] = c
         return res
 
+    def distinct_lost():
+        """ the pool gathers the records of a transcript as set(records): every record that
+        differs from the others in a coordinate (position, alleles, START/END, donor range,
+        acceptor) must survive that step """
+        pool = VariantRecordPoolOnDisk(gvf_files=list(paths), anno=None, genome=None)
+        with VariantRecordPoolOnDiskOpener(pool) as pl:
+            for key in pl.pointers:
+                recs = [rec for ptr in pl.pointers[key] for rec in ptr.load()]
+                recs = [r for r in recs if isinstance(r, VariantRecord)]
+                want = {coord_key(r.to_string()) for r in recs}
+                kept = {coord_key(r.to_string()) for r in set(recs)}
+                if want - kept:
+                    return key, sorted(want - kept)[0]
+        return None
+
     try:
         got = via_pool()
+        lost = distinct_lost()
     except Exception as e:     # pylint: disable=broad-except
         return out.fail(f'opening un-indexed GVFs raised {type(e).__name__}: {e}', 'open-exc')
+    if lost:
+        return out.fail(f'record set of {lost[0]}: a record with its own coordinates {lost[1]} '
+            'is dropped as a duplicate of another record when the pool gathers the records '
+            'of the transcript', 'pool-set-lost')
     if got != linear:
         return out.fail('record sets through generated pointers differ from a linear scan: '
             f'{sorted(set(got) ^ set(linear)) or [k for k in got if got[k] != linear[k]][:3]}',
@@ -353,5 +397,7 @@ def prop(case, ctx):
         out.label('non_ascii_metadata')
     if tampered:
         out.label('stale_idx_rejected')
+    if any(r.get('twin') for f in case['files'] for r in f['records']):
+        out.label('same_anchor_twin_records')
     out.label(f'files:{len(paths)}')
     return out
